@@ -236,18 +236,26 @@ def tags(case: dict) -> str:
 
 def _judge_one(kind: str, d: int, n: int, t: str, rec: dict) -> list:
     F = D.Finding
-    if not rec['maps_ok']:
-        return [F(f'invalid-mapping:{kind}:radix{d}:{t}',
-                  f'returned mappings pi={rec["pi"]} pf={rec["pf"]} invalid')]
-    if rec['dist'] > rec['budget']:
-        size = 'semantic' if rec['dist'] > O.SEMANTIC else 'over-budget'
-        ident = rec['pi'] == rec['pf'] == list(range(len(rec['pi'])))
-        mp = 'identity-maps' if ident else 'permuting-maps'
+    # Judged under the returned mappings when they are usable, and as the
+    # circuit stands (identity mappings) otherwise / as well: the statement
+    # does not mention mappings, level 4 needs them.  Either suffices.
+    cands = []
+    if rec['maps_ok'] and 'dist' in rec:
+        cands.append(rec['dist'])
+    if 'dist_plain' in rec:
+        cands.append(rec['dist_plain'])
+    if not cands:
+        return [F(f'unjudgeable-output:{kind}:radix{d}:{t}',
+                  f'output has width {rec["width"]} for a {n}-qudit target '
+                  f'and mappings pi={rec["pi"]} pf={rec["pf"]}')]
+    dist = min(cands)
+    if dist > rec['budget']:
+        size = 'semantic' if dist > O.SEMANTIC else 'over-budget'
         return [F(
-            f'target-missed:{kind}:{size}:radix{d}:{mp}:{t}',
-            f'{kind} target missed: distance {rec["dist"]:.3g} > budget '
+            f'target-missed:{kind}:{size}:radix{d}:{t}',
+            f'{kind} target missed: distance {dist:.3g} > budget '
             f'{rec["budget"]:.3g} (pi={rec["pi"]} pf={rec["pf"]}, output '
-            f'gates {rec["gates_out"]})', numeric=True, dist=rec['dist'],
+            f'gates {rec["gates_out"]})', numeric=True, dist=dist,
         )]
     return []
 
